@@ -86,11 +86,18 @@ _GUARD_TESTS_FAIL = {      # condition under which the check FAILS (if ...: rais
     "grid.N > size": "GOversized", "size < grid.N": "GOversized",
     "size != basisSizeFile": "GSizeMismatch", "basisSizeFile != size": "GSizeMismatch",
     "btype != basisTypeFile": "GBasisMismatch", "basisTypeFile != btype": "GBasisMismatch",
+    "datasetName not in file": "GDatasetMissing", "not datasetName in file": "GDatasetMissing",
+    "collisionDataset.shape != 4 * (size - 1,)": "GDatasetShape",
+    "collisionDataset.shape != (size - 1,) * 4": "GDatasetShape",
+    "collisionDataset.shape != (size - 1, size - 1, size - 1, size - 1)": "GDatasetShape",
 }
 _GUARD_TESTS_PASS = {      # condition that must HOLD (assert ...)
     "grid.N <= size": "GOversized", "size >= grid.N": "GOversized",
     "size == basisSizeFile": "GSizeMismatch", "basisSizeFile == size": "GSizeMismatch",
     "btype == basisTypeFile": "GBasisMismatch", "basisTypeFile == btype": "GBasisMismatch",
+    "datasetName in file": "GDatasetMissing",
+    "collisionDataset.shape == 4 * (size - 1,)": "GDatasetShape",
+    "collisionDataset.shape == (size - 1,) * 4": "GDatasetShape",
 }
 
 
@@ -167,6 +174,10 @@ def extract_new_from_directory(cls):
     if U(fn.args.defaults[-1]) != "True":
         raise TranslateError("bInterpolate default is not True")
     body = _strip(fn.body)
+    # leading normalisations of an argument that cannot change what is loaded
+    while body and U(body[0]) in ("directoryPath = Path(directoryPath)",
+                                  "directoryPath = pathlib.Path(directoryPath)"):
+        body = body[1:]
     facts = {"c_row_major": "true"}
     # ---- the double loop
     outer = body[0]
@@ -220,8 +231,9 @@ def extract_new_from_directory(cls):
         "metadata = file['metadata']",
         "size = metadata.attrs['Basis Size']",
         "btype = codecs.decode(metadata.attrs['Basis Type'], 'unicode_escape')",
-        "collisionDataset = np.array(file[datasetName][:])",
     }
+    read_stmt = "collisionDataset = np.array(file[datasetName][:])"
+    seen_read = False
     for st in _strip(tb[0].body):
         if seen_store:
             raise TranslateError("statement after the store into collisionFileArray")
@@ -231,10 +243,21 @@ def extract_new_from_directory(cls):
                 raise TranslateError("check placed after the first-file initialisation")
             if g[0] in ("GSizeMismatch", "GBasisMismatch"):
                 raise TranslateError("mismatch check outside the not-first-file branch")
+            if g[0] == "GDatasetShape" and not seen_read:
+                raise TranslateError("dataset shape checked before the dataset is read")
             every.append(g)
             continue
         s = U(st)
         if s in plain:
+            continue
+        if s == read_stmt:
+            if seen_read or seen_init:
+                raise TranslateError("dataset read twice / after the initialisation")
+            seen_read = True
+            # the read itself is a look-up of the dataset: KeyError if absent -- unless an
+            # explicit check of the same condition comes first (then it can never fire)
+            if not any(g0 == "GDatasetMissing" for g0, _ in every):
+                every.append(("GDatasetMissing", "OtherError"))
             continue
         if isinstance(st, ast.Assign) and U(st.targets[0]) == "datasetName":
             want = {"true": "%s.name + ', ' + %s.name" % (po, pi),
@@ -272,8 +295,8 @@ def extract_new_from_directory(cls):
             seen_store = True
             continue
         raise TranslateError("unrecognised statement in the per-file block: " + s[:80])
-    if not seen_store:
-        raise TranslateError("no store into collisionFileArray")
+    if not seen_store or not seen_read:
+        raise TranslateError("no dataset read / store into collisionFileArray")
     facts["c_guards_every"] = every
     facts["c_guards_later"] = later
     # ---- after the loops
@@ -311,6 +334,10 @@ def extract_new_from_directory(cls):
             isinstance(dg.value, ast.Call) and U(dg.value.func) == "Grid"
             and len(dg.value.args) >= 2 and U(dg.value.args[0]) == "grid.M"):
         raise TranslateError("dummy grid construction: " + U(dg)[:80])
+    if [U(a) for a in dg.value.args[2:]] != ["grid.positionFalloff", "grid.momentumFalloffT",
+                                             "grid.spacing"] or dg.value.keywords:
+        raise TranslateError("dummy grid is not built with the target grid's falloffs and "
+                             "spacing: " + U(dg.value)[:100])
     n_arg = U(dg.value.args[1])
     if n_arg == "basisSizeFile":
         facts["c_interp_size"] = "FileSize"
@@ -768,12 +795,386 @@ def check_evaluate_layout(tree):
 
 # ----------------------------------------------------------------------------------
 
+# ----------------------------------------------------------------------------------
+# identity of the names the facts are stated in
+
+def bindings(tree, name):
+    """every place in a module that binds `name` (any scope)"""
+    out = []
+    for n in ast.walk(tree):
+        if isinstance(n, (ast.Import, ast.ImportFrom)):
+            for a in n.names:
+                bound = a.asname or a.name.split(".")[0]
+                if bound == name:
+                    if isinstance(n, ast.ImportFrom):
+                        out.append("from %s%s import %s%s" % (
+                            "." * n.level, n.module or "", a.name,
+                            " as " + a.asname if a.asname else ""))
+                    else:
+                        out.append("import %s%s" % (a.name,
+                                                    " as " + a.asname if a.asname else ""))
+        elif isinstance(n, (ast.ClassDef, ast.FunctionDef, ast.AsyncFunctionDef)):
+            if n.name == name:
+                out.append("def/class " + name)
+        elif isinstance(n, ast.Name) and n.id == name and \
+                isinstance(n.ctx, (ast.Store, ast.Del)):
+            out.append("assignment to " + name)
+        elif isinstance(n, ast.arg) and n.arg == name:
+            out.append("argument " + name)
+        elif isinstance(n, ast.ExceptHandler) and n.name == name:
+            out.append("except ... as " + name)
+        elif isinstance(n, (ast.Global, ast.Nonlocal)) and name in n.names:
+            out.append("global " + name)
+    return out
+
+
+def require_binding(tree, fname, name, want):
+    b = bindings(tree, name)
+    if b != [want]:
+        raise TranslateError("%s: the name %s must be bound exactly once, by `%s`; found %s"
+                             % (fname, name, want, b or "nothing"))
+
+
+def check_exception_identity(trees):
+    """the CollisionLoadError the facts talk about is THE public WallGo.CollisionLoadError"""
+    ex = trees["exceptions.py"]
+    defs = [n for n in ast.walk(ex) if isinstance(n, ast.ClassDef)
+            and n.name == "CollisionLoadError"]
+    if len(defs) != 1 or bindings(ex, "CollisionLoadError") != ["def/class CollisionLoadError"]:
+        raise TranslateError("exceptions.py does not define CollisionLoadError exactly once")
+    bases = [U(b) for b in defs[0].bases]
+    if bases not in (["Exception"], ["WallGoError"]):
+        raise TranslateError("CollisionLoadError bases are %s" % bases)
+    if any(not (isinstance(x, ast.Pass) or (isinstance(x, ast.Expr) and
+                                             isinstance(x.value, ast.Constant)))
+           for x in defs[0].body):
+        raise TranslateError("CollisionLoadError has a non-trivial body")
+    for f in ("collisionArray.py", "boltzmann.py"):
+        require_binding(trees[f], f, "CollisionLoadError",
+                        "from .exceptions import CollisionLoadError")
+    # the package exports that very class
+    init = trees["__init__.py"]
+    b = bindings(init, "CollisionLoadError")
+    if b != ["from .exceptions import CollisionLoadError"]:
+        raise TranslateError("__init__.py binds CollisionLoadError by %s" % b)
+    # copy.deepcopy is the standard one where the facts rely on it
+    for f in ("collisionArray.py", "equationOfMotion.py"):
+        require_binding(trees[f], f, "copy", "import copy")
+    # the classes the call sites name are the ones analysed here
+    require_binding(trees["boltzmann.py"], "boltzmann.py", "CollisionArray",
+                    "from .collisionArray import CollisionArray")
+    require_binding(trees["manager.py"], "manager.py", "BoltzmannSolver",
+                    "from .boltzmann import BoltzmannSolver")
+    require_binding(trees["collisionArray.py"], "collisionArray.py", "Polynomial",
+                    "from .polynomial import Polynomial")
+    require_binding(trees["collisionArray.py"], "collisionArray.py", "Grid",
+                    "from .grid import Grid")
+
+
+# ----------------------------------------------------------------------------------
+# EOM.getBoltzmannFiniteDifference: the only caller of CollisionArray.changeBasis on a live
+# array
+
+def extract_fd_program(tree):
+    cls = _find_class(tree, "EOM")
+    fn = _find_method(cls, "getBoltzmannFiniteDifference")
+    if [a.arg for a in fn.args.args] != ["self"]:
+        raise TranslateError("getBoltzmannFiniteDifference signature changed")
+    prog = []
+    var = None
+    for st in _strip(fn.body):
+        s = U(st)
+        if isinstance(st, ast.Assert):
+            continue
+        if isinstance(st, ast.Assign) and len(st.targets) == 1 and \
+                isinstance(st.targets[0], ast.Name):
+            v = U(st.value)
+            kind = {"copy.deepcopy(self.boltzmannSolver)": "CDeep",
+                    "copy.copy(self.boltzmannSolver)": "CShallow",
+                    "self.boltzmannSolver": "CAlias"}.get(v)
+            if kind is None:
+                raise TranslateError("getBoltzmannFiniteDifference: unrecognised binding " + s)
+            if var is not None and st.targets[0].id != var:
+                raise TranslateError("getBoltzmannFiniteDifference: second solver variable")
+            var = st.targets[0].id
+            prog.append("FBind %s" % kind)
+            continue
+        if var is None:
+            raise TranslateError("getBoltzmannFiniteDifference: statement before the solver "
+                                 "is bound: " + s[:80])
+        if isinstance(st, ast.Assign) and len(st.targets) == 1 and \
+                isinstance(st.targets[0], ast.Attribute) and U(st.targets[0].value) == var:
+            attr = st.targets[0].attr
+            if attr == "basisN":
+                if not (isinstance(st.value, ast.Constant) and
+                        st.value.value in ("Cardinal", "Chebyshev")):
+                    raise TranslateError("getBoltzmannFiniteDifference: basisN = " + U(st.value))
+                prog.append("FSetBasisN %s" % st.value.value)
+            elif attr in ("collisionArray", "offEqParticles", "grid"):
+                raise TranslateError("getBoltzmannFiniteDifference rebinds ." + attr)
+            else:
+                prog.append("FSetField")
+            continue
+        if isinstance(st, ast.Expr) and isinstance(st.value, ast.Call) and \
+                U(st.value.func) == var + ".collisionArray.changeBasis":
+            a = st.value.args
+            if len(a) != 1 or not isinstance(a[0], ast.Constant) or \
+                    a[0].value not in ("Cardinal", "Chebyshev") or st.value.keywords:
+                raise TranslateError("getBoltzmannFiniteDifference: changeBasis argument")
+            prog.append("FChangeBasis %s" % a[0].value)
+            continue
+        if s in ("return %s.getDeltas()" % var, "%s.getDeltas()" % var):
+            prog.append("FGetDeltas")
+            continue
+        raise TranslateError("getBoltzmannFiniteDifference: unrecognised statement " + s[:80])
+    return prog
+
+
+# ----------------------------------------------------------------------------------
+# WallGoManager.setupWallSolver: the only caller of loadCollisions
+
+def extract_manager(tree):
+    cls = _find_class(tree, "WallGoManager")
+    fn = _find_method(cls, "setupWallSolver")
+    call_text = "boltzmannSolver.loadCollisions(self.collisionDirectory)"
+    found = []
+
+    def walk(stmts, chain):
+        for st in stmts:
+            if isinstance(st, ast.Expr) and U(st.value) == call_text:
+                found.append(list(chain))
+            elif any(isinstance(n, ast.Call) and isinstance(n.func, ast.Attribute)
+                     and n.func.attr == "loadCollisions" for n in ast.walk(st)) and \
+                    not isinstance(st, (ast.If, ast.Try, ast.With, ast.For, ast.While)):
+                raise TranslateError("setupWallSolver: loadCollisions used in `%s`" % U(st)[:80])
+            if isinstance(st, ast.If):
+                walk(st.body, chain + [("if", U(st.test))])
+                walk(st.orelse, chain + [("else", U(st.test))])
+            elif isinstance(st, ast.Try):
+                walk(st.body, chain + [("try", st)])
+                for h in st.handlers:
+                    walk(h.body, chain + [("except", U(h.type) if h.type else "")])
+                walk(st.orelse, chain + [("try-else", st)])
+                walk(st.finalbody, chain + [("finally", st)])
+            elif isinstance(st, (ast.With, ast.For, ast.While)):
+                walk(st.body, chain + [("block", type(st).__name__)])
+
+    body = _strip(fn.body)
+    walk(body, [])
+    if len(found) != 1:
+        raise TranslateError("setupWallSolver: %d calls of %s" % (len(found), call_text))
+    handlers = []
+    conds = []
+    for kind, x in found[0]:
+        if kind == "if":
+            conds.append(x)
+        elif kind == "try":
+            for h in x.handlers:
+                if h.type is None:
+                    kinds = ["CollisionLoadError", "AssertionError", "OtherError"]
+                elif isinstance(h.type, ast.Name):
+                    kinds = ["CollisionLoadError", "AssertionError", "OtherError"] \
+                        if h.type.id in ("Exception", "BaseException", "WallGoError") else \
+                        [_kind_of_exc(h.type.id)]
+                elif isinstance(h.type, ast.Tuple):
+                    kinds = ["CollisionLoadError", "AssertionError", "OtherError"]
+                else:
+                    kinds = [_kind_of_exc(U(h.type).split(".")[-1])]
+                hb = _strip(h.body)
+                if len(hb) == 1 and isinstance(hb[0], ast.Raise) and hb[0].exc is None:
+                    act = "HReraise"
+                elif hb and isinstance(hb[-1], ast.Raise) and hb[-1].exc is not None:
+                    act = "(HRaise %s)" % _raise_kind(hb[-1])
+                elif hb and isinstance(hb[-1], ast.Raise):
+                    act = "HReraise"
+                else:
+                    act = "HSwallow"
+                handlers += [(k, act) for k in kinds]
+            if x.finalbody and any(isinstance(n, (ast.Return, ast.Break, ast.Continue))
+                                   for f in x.finalbody for n in ast.walk(f)):
+                handlers += [(k, "HSwallow") for k in
+                             ("CollisionLoadError", "AssertionError", "OtherError")]
+        else:
+            raise TranslateError("setupWallSolver: loadCollisions inside a `%s` block" % kind)
+    if conds != ["bShouldLoadCollisions"]:
+        raise TranslateError("setupWallSolver: the load is conditional on %s" % conds)
+    assigns = [U(st) for st in ast.walk(fn) if isinstance(st, (ast.Assign, ast.AugAssign,
+                                                                ast.AnnAssign))
+               and any(isinstance(n, ast.Name) and n.id == "bShouldLoadCollisions" and
+                       isinstance(n.ctx, ast.Store) for n in ast.walk(st))]
+    if assigns != ["bShouldLoadCollisions = wallSolverSettings.bIncludeOffEquilibrium"]:
+        raise TranslateError("setupWallSolver: bShouldLoadCollisions is set by %s" % assigns)
+    offeq = [U(st) for st in ast.walk(fn) if isinstance(st, ast.Assign) and
+             U(st.targets[0]).endswith(".includeOffEq")]
+    if offeq != ["eom.includeOffEq = wallSolverSettings.bIncludeOffEquilibrium"]:
+        raise TranslateError("setupWallSolver: includeOffEq is set by %s" % offeq)
+    text = U(fn)
+    for need in ("boltzmannSolver = BoltzmannSolver(grid, basisM='Cardinal', "
+                 "basisN='Chebyshev', collisionMultiplier=collisionMultiplier)",
+                 "boltzmannSolver.updateParticleList(self.model.outOfEquilibriumParticles)",
+                 "eom: EOM = self.buildEOM(grid, boltzmannSolver, meanFreePathScale)",
+                 "return WallSolver(eom, grid, boltzmannSolver, wallThickness / Tnucl)"):
+        if need not in text:
+            raise TranslateError("setupWallSolver: statement not found: " + need)
+    return handlers
+
+
+# ----------------------------------------------------------------------------------
+# every path into the loading / conversion functions is one of the reviewed ones
+
+ALLOWED_CALLS = {
+    ("boltzmann.py", "BoltzmannSolver.loadCollisions", "newFromDirectory"),
+    ("manager.py", "WallGoManager.setupWallSolver", "loadCollisions"),
+    ("equationOfMotion.py", "EOM.getBoltzmannFiniteDifference", "collisionArray.changeBasis"),
+    ("collisionArray.py", "CollisionArray.newFromDirectory", "newFromPolynomial"),
+    ("collisionArray.py", "CollisionArray.newFromDirectory", "interpolateCollisionArray"),
+    ("collisionArray.py", "CollisionArray.newFromDirectory", "collision.changeBasis"),
+    ("collisionArray.py", "CollisionArray.interpolateCollisionArray", "newFromPolynomial"),
+    ("collisionArray.py", "CollisionArray.interpolateCollisionArray", "collision.changeBasis"),
+    ("collisionArray.py", "CollisionArray.changeBasis", "polynomialData.changeBasis"),
+}
+ALLOWED_WRITES = {
+    ("boltzmann.py", "BoltzmannSolver.__init__", "collisionArray"),
+    ("boltzmann.py", "BoltzmannSolver.setCollisionArray", "collisionArray"),
+    ("boltzmann.py", "BoltzmannSolver.loadCollisions", "collisionArray"),
+    ("collisionArray.py", "CollisionArray.__init__", "polynomialData"),
+    ("collisionArray.py", "CollisionArray.newFromPolynomial", "polynomialData"),
+}
+
+
+def scan_call_paths(trees):
+    """-> list of unreviewed uses (file, function, what)"""
+    new = []
+    for fname, tree in sorted(trees.items()):
+        def visit(node, qual):
+            for ch in ast.iter_child_nodes(node):
+                q = qual
+                if isinstance(ch, (ast.ClassDef, ast.FunctionDef, ast.AsyncFunctionDef)):
+                    q = (qual + "." if qual else "") + ch.name
+                if isinstance(ch, ast.Call) and isinstance(ch.func, ast.Attribute):
+                    attr = ch.func.attr
+                    recv = U(ch.func.value)
+                    what = None
+                    if attr in ("newFromDirectory", "loadCollisions",
+                                "interpolateCollisionArray", "newFromPolynomial",
+                                "setCollisionArray"):
+                        what = attr
+                    elif attr == "changeBasis":
+                        if recv.endswith(".collisionArray") or recv == "collisionArray":
+                            what = "collisionArray.changeBasis"
+                        elif recv.endswith("polynomialData"):
+                            what = "polynomialData.changeBasis"
+                        elif fname == "collisionArray.py":
+                            what = "collision.changeBasis"
+                    if what is not None and (fname, qual, what) not in ALLOWED_CALLS:
+                        new.append((fname, qual or "<module>", "call of " + what + ": " +
+                                    U(ch)[:60]))
+                if isinstance(ch, ast.Attribute) and isinstance(ch.ctx, (ast.Store, ast.Del)) \
+                        and ch.attr in ("collisionArray", "polynomialData"):
+                    if (fname, qual, ch.attr) not in ALLOWED_WRITES:
+                        new.append((fname, qual or "<module>", "write to ." + ch.attr))
+                if isinstance(ch, ast.Attribute) and ch.attr == "coefficients" and \
+                        isinstance(ch.ctx, (ast.Store, ast.Del)) and \
+                        "ollision" in U(ch.value) + fname:
+                    new.append((fname, qual or "<module>", "write to " + U(ch)))
+                if isinstance(ch, ast.Call) and U(ch.func) in ("setattr", "delattr") and \
+                        ch.args[1:2] and isinstance(ch.args[1], ast.Constant) and \
+                        ch.args[1].value in ("collisionArray", "polynomialData"):
+                    new.append((fname, qual or "<module>", U(ch)[:60]))
+                visit(ch, q)
+        visit(tree, "")
+    return new
+
+
+# ----------------------------------------------------------------------------------
+# small helpers the result depends on: the statements that matter must be there
+
+HELPER_STATEMENTS = {
+    ("collisionArray.py", "CollisionArray", "__init__"): [
+        "self.size = grid.N - 1", "self.basisType = basisType", "self.particles = particles",
+        "bases = ('Array', 'Cardinal', 'Cardinal', 'Array', basisType, basisType)",
+        "self.polynomialData = Polynomial(data, grid, bases, CollisionArray.AXIS_TYPES, "
+        "endpoints=False)"],
+    ("collisionArray.py", "CollisionArray", "__getitem__"): [
+        "return self.polynomialData.coefficients[key]"],
+    ("collisionArray.py", "CollisionArray", "getBasisSize"): ["return self.size"],
+    ("collisionArray.py", "CollisionArray", "getBasisType"): ["return self.basisType"],
+    ("collisionArray.py", "CollisionArray", "newFromPolynomial"): [
+        "bases = inputPolynomial.basis", "assert bases[4] == bases[5]",
+        "basisType = bases[4]",
+        "newCollision = CollisionArray(inputPolynomial.grid, basisType, particles)",
+        "newCollision.polynomialData = inputPolynomial", "return newCollision"],
+    ("collisionArray.py", "CollisionArray", "_checkBasis"): [
+        "bases = ['Cardinal', 'Chebyshev']"],
+    ("collisionArray.py", "CollisionArray", "interpolateCollisionArray"): [
+        "source = copy.deepcopy(srcCollision)"],
+    ("boltzmann.py", "BoltzmannSolver", "__init__"): [
+        "self.grid = grid", "self.basisN = basisN", "self.collisionArray = None",
+        "BoltzmannSolver._checkBasis(basisN)"],
+    ("boltzmann.py", "BoltzmannSolver", "setCollisionArray"): [
+        "self.collisionArray = collisionArray"],
+    ("boltzmann.py", "BoltzmannSolver", "updateParticleList"): [
+        "self.offEqParticles = offEqParticles"],
+    ("polynomial.py", "Polynomial", "changeBasis"): [
+        "self.basis = newBasis",
+        "x = self.grid.getCompactCoordinates(self.endpoints[i], self.direction[i])",
+        "n = np.arange(2, self.grid.N + 1)", "n = np.arange(1, self.grid.N)",
+        "restriction = 'full'", "restriction = 'partial'"],
+    ("polynomial.py", "Polynomial", "__init__"): [
+        "self.coefficients = np.asanyarray(coefficients)", "self.basis = basis",
+        "self.direction = direction", "self.endpoints = endpoints", "self.grid = grid"],
+}
+
+
+def check_helpers(trees):
+    for (fname, cname, mname), needed in HELPER_STATEMENTS.items():
+        fn = _find_method(_find_class(trees[fname], cname), mname)
+        have = set()
+        for n in ast.walk(fn):
+            if isinstance(n, ast.stmt):
+                have.add(U(n))
+        for line in needed:
+            if line not in have:
+                raise TranslateError("%s %s.%s: statement not found: %s" % (
+                    fname, cname, mname, line))
+    cls = _find_class(trees["collisionArray.py"], "CollisionArray")
+    for st in cls.body:
+        if isinstance(st, ast.AnnAssign) and U(st.target) == "AXIS_TYPES":
+            if U(st.value) != "('Array', 'pz', 'pp', 'Array', 'pz', 'pp')":
+                raise TranslateError("AXIS_TYPES = " + U(st.value))
+            break
+    else:
+        raise TranslateError("AXIS_TYPES not found")
+
+
 def _coq_list(items):
     return "[" + "; ".join(items) + "]"
 
 
-def generate(src_collision, src_boltzmann, src_polynomial):
-    """-> (CollisionGen.v text, BasisGen.v text, facts dict)"""
+NEEDED = ("collisionArray.py", "boltzmann.py", "polynomial.py", "equationOfMotion.py",
+          "manager.py", "exceptions.py", "__init__.py")
+
+
+def generate(sources):
+    """sources: {file name under src/WallGo: text} for (at least) NEEDED, ideally every
+    module of the package (the call-path scan runs over all of them)
+    -> (CollisionGen.v text, BasisGen.v text, facts dict)"""
+    for f in NEEDED:
+        if f not in sources:
+            raise TranslateError("source file %s not found" % f)
+    trees = {}
+    for f, text in sources.items():
+        try:
+            trees[f] = ast.parse(text)
+        except SyntaxError as e:
+            raise TranslateError("cannot parse %s: %s" % (f, e))
+    src_collision, src_boltzmann, src_polynomial = (
+        sources["collisionArray.py"], sources["boltzmann.py"], sources["polynomial.py"])
+    check_exception_identity(trees)
+    check_helpers(trees)
+    fd_prog = extract_fd_program(trees["equationOfMotion.py"])
+    mgr_handlers = extract_manager(trees["manager.py"])
+    new_paths = scan_call_paths(trees)
     tc = ast.parse(src_collision)
     cls = _find_class(tc, "CollisionArray")
     facts = extract_new_from_directory(cls)
@@ -823,7 +1224,18 @@ Definition eval_axes : list nat := %(axes)s.
 
 Definition grid_points {X} (Nt : nat) (rz rp : nat -> X) (d : X) : arr X :=
   %(grid_points)s.
-""" % dict(facts, every=guards(facts["c_guards_every"]), later=guards(facts["c_guards_later"]),
+
+(* EOM.getBoltzmannFiniteDifference *)
+Definition fd_prog : list fdstmt := %(fd_prog)s.
+
+(* handlers of the try statements around boltzmannSolver.loadCollisions(...) in
+   WallGoManager.setupWallSolver *)
+Definition manager_handlers : list (errkind * hact) := %(mgr)s.
+
+(* uses of the loading / conversion functions outside the reviewed call sites *)
+Definition unreviewed_call_paths : nat := %(npaths)d.
+""" % dict(facts, fd_prog=_coq_list(fd_prog),
+           mgr=_coq_list("(%s, %s)" % h for h in mgr_handlers), npaths=len(new_paths), every=guards(facts["c_guards_every"]), later=guards(facts["c_guards_later"]),
            pre=_coq_list(facts["c_prog_pre"]), **{"try": _coq_list(facts["c_prog_try"])},
            handlers=_coq_list("(%s, %s)" % h for h in facts["c_handlers"]),
            final_term=itp["final_term"], axes=_coq_list(map(str, itp["eval_axes"])),
@@ -859,13 +1271,20 @@ Definition collision_invT : bool := %(inv_t)s.
     facts["eval_axes"] = itp["eval_axes"]
     facts["collision_invT"] = inv_t
     facts["tn_lines"] = lines
+    facts["fd_prog"] = fd_prog
+    facts["manager_handlers"] = mgr_handlers
+    facts["new_paths"] = new_paths
     return gen, bas, facts
 
 
 if __name__ == "__main__":
     import sys
     root = sys.argv[1] if len(sys.argv) > 1 else "/repo"
-    rd = lambda n: open("%s/src/WallGo/%s" % (root, n)).read()
-    g, b, f = generate(rd("collisionArray.py"), rd("boltzmann.py"), rd("polynomial.py"))
+    import glob
+    import os
+    srcs = {os.path.basename(p): open(p).read()
+            for p in glob.glob("%s/src/WallGo/*.py" % root)}
+    g, b, f = generate(srcs)
+    print(f["new_paths"])
     print(g)
     print(b)
